@@ -116,6 +116,13 @@ func c05Format(w *rt.W, id uu.ID, slow bool) {
 				fail("format-urn-after-prefix", "DefaultFormatter("+pre+", FormatURN)", string(b), pre+wantURN)
 			}
 		}
+		for _, p := range c05Prefixes {
+			for fl, wantT := range []string{want, wantURN} {
+				if b, err := uu.DefaultFormatter(append([]byte(nil), p...), id, uu.Format(fl)); err != nil || string(b) != string(p)+wantT {
+					fail("format-after-prefix", fmt.Sprintf("DefaultFormatter(%q, %d)", p, fl), string(b), string(p)+wantT)
+				}
+			}
+		}
 		w.Eval(6)
 	}
 	if v, want := id.Version(), ref.UUIDVersion(id.Higher); v != want {
@@ -261,7 +268,31 @@ func init() {
 	}, len(ids))
 }
 
+var c05Prefixes = textPrefixes([]string{"urn:uuid:", "0123456789abcdef", "-"})
+
 func runC05(c *rt.Ctx) {
+	callerEditsReturnedErrors(c, map[string]func() error{
+		"uu.DefaultParser[string](x, 0)":       func() error { _, err := uu.DefaultParser("x", 0); return err },
+		"uu.DefaultParser[string](digit g, 0)": func() error { _, err := uu.DefaultParser("f81d4fae-7dec-11d0-a765-00a0c91e6bfg", 0); return err },
+		"uu.DefaultParser[[]byte](URN, RuleDisableURN)": func() error {
+			_, err := uu.DefaultParser([]byte("urn:uuid:f81d4fae-7dec-11d0-a765-00a0c91e6bf6"), uu.RuleDisableURN)
+			return err
+		},
+		"uu.DefaultParser[string](upper, DisableUpper)": func() error {
+			_, err := uu.DefaultParser("F81D4FAE-7DEC-11D0-A765-00A0C91E6BF6", uu.RuleDisableUpperCaseDigits)
+			return err
+		},
+		"uu.Parser variable(misplaced dash)": func() error { _, err := uu.Parser([]byte("f81d4fae7-dec-11d0-a765-00a0c91e6bf6"), 0); return err },
+		"ID.UnmarshalText(35 bytes)":         func() error { var id uu.ID; return id.UnmarshalText([]byte("f81d4fae-7dec-11d0-a765-00a0c91e6bf")) },
+	})
+	appenderSweep(c, func() []any {
+		var out []any
+		for _, v := range []uu.ID{uu.ID{}, uu.ID{Higher: 1, Lower: 2}, uu.ID{Higher: 0xf81d4fae7dec11d0, Lower: 0xa76500a0c91e6bf6}, uu.ID{Higher: ^uint64(0), Lower: ^uint64(0)}} {
+			v := v
+			out = append(out, v, &v)
+		}
+		return out
+	}())
 	configuredEpisode() // the process has a past: failing configured Formatters and Parsers, since restored
 	c.Extra("history_before_the_streams", "an episode of failing configured Formatter/Parser variables in all five packages")
 	c.SetRule("(a) each of the 128 bit positions set/cleared over 6 background IDs; (b) each of the 32 hex positions x 16 digit values x {lower, upper} over the backgrounds under all 4 rule combinations; (c) seeded random IDs through every output path and back; " +
